@@ -824,6 +824,12 @@ def dict_eq(a, b):
 # =============================================================================== C16
 def o_handler(v: View, stats=None):
     cfg = v.cfg
+    for e in v.trace:
+        if e[0] == "callable-copied":
+            # the sleep handler / before_sleep hook / sleeper the caller configured is an object with state of its own; the library
+            # consulted a copy of it, so the caller's own object was never consulted at all
+            yield "callback-object-replaced-by-a-copy", f"the library called a COPY of the caller's callable object(s) {e[1]}: the object that was configured saw nothing of this call"
+            return
     place = dict(v.sc.get("place") or {})
     deco = v.rec.entry.lstrip("a").startswith("deco")
     if not deco:
